@@ -10,7 +10,7 @@
    activation / deactivation schedules driven from the bracket-event handlers. *)
 From Coq Require Import List ZArith NArith Bool.
 Import ListNotations.
-From PyccoloV Require gen.Events model.RwFrag model.FragSem proofs.FragSemProofs model.FragLoop proofs.FragLoopProofs model.FragFun proofs.FragFunProofs.
+From PyccoloV Require gen.Events model.RwFrag model.FragSem proofs.FragSemProofs model.FragLoop proofs.FragLoopProofs model.FragFun proofs.FragFunProofs model.FragProg proofs.FragProgProofs.
 From PyccoloV Require Import gen.PyAst model.Tree model.Erase proofs.EraseSound.
 
 Theorem C10_guard_branches_agree : forall sc test b o l,
@@ -171,4 +171,67 @@ Example C10_fun_nonvacuous :
   FragFun.f_env (run fpol_off_after_first) 102%N = Some (FragSem.VInt 2) /\ FragFun.f_env (run fpol_off_after_first) 103%N = Some (FragSem.VInt 3) /\
   FragFun.f_exc (run fpol_on) = None /\
   length (FragFun.f_log (run fpol_on)) = 8%nat /\ length (FragFun.f_log (run fpol_off_after_first)) = 5%nat.
+Proof. vm_compute. repeat split; reflexivity. Qed.
+
+(* LOOPS AND FUNCTIONS TOGETHER (model/FragProg.v): while / else / break / continue inside function bodies, `return` from inside a loop (through the
+   try / finally of an instrumented iteration), module-level loops calling functions, recursion through loops; two kinds of fuel (iterations per
+   loop execution, call depth); ONE arbitrary policy `pol` over loop-test, loop-body and function guards.  The pristine copy of a loop body keeps
+   guarded tests on nested loops, the pristine copy of a function body is plain.  For ALL primitive operations, subscriptions, guard settings,
+   policies, fuels, source modules of the fragment and environments:
+   C10_prog_results / C10_prog_plain / C10_prog_stream - as C10_frag_* and C10_fun_*, for the merged fragment (they subsume both).
+   K-prog ties model, evaluator and reference to the real rewriter, CPython and the real runtime under guard rules on all three kinds of guard. *)
+Theorem C10_prog_results : forall binop cmpop unop truth cval is_and fuel c1 ge1 pol1 c2 ge2 pol2 m d r sv sv',
+  forallb FragProgProofs.psrc_t m = true ->
+  FragProg.p_exc (FragProg.prun binop cmpop unop truth cval is_and c1 pol1 fuel d (FragProg.pinstr_module c1 ge1 m) r sv) =
+  FragProg.p_exc (FragProg.prun binop cmpop unop truth cval is_and c2 pol2 fuel d (FragProg.pinstr_module c2 ge2 m) r sv') /\
+  FragProg.p_env (FragProg.prun binop cmpop unop truth cval is_and c1 pol1 fuel d (FragProg.pinstr_module c1 ge1 m) r sv) =
+  FragProg.p_env (FragProg.prun binop cmpop unop truth cval is_and c2 pol2 fuel d (FragProg.pinstr_module c2 ge2 m) r sv').
+Proof. exact FragProgProofs.prog_results. Qed.
+Print Assumptions C10_prog_results.
+
+Theorem C10_prog_plain : forall binop cmpop unop truth cval is_and fuel c ge pol c0 pol0 m d r sv sv',
+  forallb FragProgProofs.psrc_t m = true ->
+  FragProg.p_exc (FragProg.prun binop cmpop unop truth cval is_and c pol fuel d (FragProg.pinstr_module c ge m) r sv) =
+  FragProg.p_exc (FragProg.prun binop cmpop unop truth cval is_and c0 pol0 fuel d m r sv') /\
+  FragProg.p_env (FragProg.prun binop cmpop unop truth cval is_and c pol fuel d (FragProg.pinstr_module c ge m) r sv) =
+  FragProg.p_env (FragProg.prun binop cmpop unop truth cval is_and c0 pol0 fuel d m r sv').
+Proof. exact FragProgProofs.prog_plain. Qed.
+Print Assumptions C10_prog_plain.
+
+Theorem C10_prog_stream : forall binop cmpop unop truth cval is_and fuel c ge pol m d r sv,
+  forallb FragProgProofs.psrc_t m = true ->
+  FragSem.filter_log c (FragProg.p_log (FragProg.prun binop cmpop unop truth cval is_and c pol fuel d (FragProg.pinstr_module c ge m) r sv)) =
+  FragSem.filter_log c (FragProg.pr_log (FragProg.pref_module binop cmpop unop truth cval is_and c pol fuel ge d m r)).
+Proof. exact FragProgProofs.prog_stream. Qed.
+Print Assumptions C10_prog_stream.
+
+(* non-vacuity: `def f(p): i = 0; while i < p: i = i + 1; if i > 1: return i` / `return 0`, then `a = f(3)`, with before_while_loop_body,
+   after_while_loop_iter, after_return and after_function_execution subscribed.  All guards on: iteration 1 is bracketed, iteration 2 is entered,
+   returns (after_return), and is still closed by after_while_loop_iter on the way out, then after_function_execution: 6 events.  With the body
+   guard of the loop switched off once the first after_while_loop_iter has been delivered, iteration 2 runs the pristine copy: its `return i` is
+   a plain return, nothing brackets it; the function itself is still loud: 3 events.  a = 2 either way *)
+Definition ex_prog : list FragProg.pstmt :=
+  [FragProg.PDef 1 100 [101]
+     [FragProg.PAssign 4 [102] (FragFun.RExp (FragSem.XConst 7 (SInt 0%Z)));
+      FragProg.PWhile 8 (FragSem.XCmp 9 (FragSem.XName 10 102) [kLt] [FragSem.XName 13 101])
+        [FragProg.PAssign 15 [102] (FragFun.RExp (FragSem.XBin 18 (FragSem.XName 19 102) kAdd (FragSem.XConst 22 (SInt 1%Z))));
+         FragProg.PIf 23 (FragSem.XCmp 24 (FragSem.XName 25 102) [kGt] [FragSem.XConst 28 (SInt 1%Z)])
+           [FragProg.PReturn 29 (Some (FragFun.RExp (FragSem.XName 30 102)))] []] [];
+      FragProg.PReturn 32 (Some (FragFun.RExp (FragSem.XConst 33 (SInt 0%Z))))];
+   FragProg.PAssign 34 [103] (FragFun.RCall 37 false false false (FragSem.XName 38 100) [FragSem.XConst 40 (SInt 3%Z)])]%N.
+Definition ex_pc : RwFrag.rcfg :=
+  {| RwFrag.sub := fun e => existsb (Events.event_eqb e) [Events.E_before_while_loop_body; Events.E_after_while_loop_iter; Events.E_after_return; Events.E_after_function_execution] |}.
+Definition ppol_on : list FragSem.entry -> FragProg.guard -> bool := fun _ _ => true.
+Definition ppol_off_after_first : list FragSem.entry -> FragProg.guard -> bool :=
+  fun log g => match g with
+               | FragProg.GBody 8 => negb (existsb (fun en => Events.event_eqb (fst (fst en)) Events.E_after_while_loop_iter) log)
+               | _ => true
+               end.
+Example C10_prog_nonvacuous :
+  forallb FragProgProofs.psrc_t ex_prog = true /\
+  let run pol := FragProg.prun FragSem.Py.binop FragSem.Py.cmpop FragSem.Py.unop FragSem.Py.truth FragSem.Py.cval FragSem.Py.is_and ex_pc pol 10 5
+                   (FragProg.pinstr_module ex_pc true ex_prog) (fun _ => None) FragSem.VNone in
+  FragProg.p_exc (run ppol_on) = None /\ FragProg.p_env (run ppol_on) 103%N = Some (FragSem.VInt 2) /\
+  FragProg.p_env (run ppol_off_after_first) 103%N = Some (FragSem.VInt 2) /\
+  length (FragProg.p_log (run ppol_on)) = 6%nat /\ length (FragProg.p_log (run ppol_off_after_first)) = 3%nat.
 Proof. vm_compute. repeat split; reflexivity. Qed.
